@@ -452,6 +452,16 @@ def handleJobStatus (s : JobList) (pid : Nat) (result : PState) (inter : Bool) (
   else
     ((inter && (match result with | .signaled sg _ => sg == 2 | _ => false), result.exitStatus), s)
 
+/-- `add_job_if_suspended(env, pid, result, || name)` (deprecated since 0.15.0, still exported and
+    re-exported by yash-semantics): the same insertion as `handle_job_status`, without the
+    interactive-SIGINT interruption. -/
+def addJobIfSuspended (s : JobList) (pid : Nat) (result : PState) (inter : Bool) (name : Str) :
+    (Bool × Nat) × JobList :=
+  if result.isStopped then
+    ((inter, result.exitStatus), (s.insert { pid := pid, state := result, jc := true, name := name }).2)
+  else
+    ((false, result.exitStatus), s)
+
 /-! ### `jobs` when standard output cannot be written -/
 
 /-- `jobs::main` with standard output closed: everything up to `output(env, &accumulator.print)` is
@@ -621,6 +631,13 @@ inductive Op where
   | waitEv (evs : List Ev) (args : List Str)
   | kres (arg : Str)
   | bang
+  -- wave 3: the rest of the public mutating surface of `JobList`
+  | removeIf (p : RmPred) (report : Bool)                 -- the REAL `remove_if`
+  | extractIf (p : RmPred) (report : Bool)                -- `extract_if`, drained
+  | extractTake (n : Nat) (p : RmPred) (report : Bool)    -- `extract_if(..).take(n)`, then dropped
+  | addJob (pid : Nat) (st : PState)                      -- deprecated `add`
+  | reportOne (i : Nat)                                   -- `get_mut(i).state_reported()`
+  | ajs (pid : Nat) (result : PState) (inter : Bool) (name : Str)   -- deprecated `add_job_if_suspended`
   deriving Repr
 
 def step (s : JobList) : Op → JobList
@@ -650,6 +667,12 @@ def step (s : JobList) : Op → JobList
   | .waitEv evs args => (waitBuiltinEv s evs args).2
   | .kres _ => s
   | .bang => s
+  | .removeIf p r => s.removeIfDrop p.eval r
+  | .extractIf p r => (s.removeIf p.eval r).2
+  | .extractTake n p r => (s.extractTake n p.eval r).2
+  | .addJob pid st => (s.add { pid := pid, state := st }).2
+  | .reportOne i => s.reportOne i
+  | .ajs pid r i name => (addJobIfSuspended s pid r i name).2
 
 def run (s : JobList) (ops : List Op) : JobList := ops.foldl step s
 
